@@ -10,6 +10,7 @@ def past_cfg(rng, **kw):
     c = lang.GenCfg(vars=list(lang.VAR_POOL[:nv]), max_depth=rng.choice([1, 2, 3, 3, 4, 5]), future=False,
                     max_bound=rng.choice([2, 4, 8, 12]))
     r = rng.random()
+    c.wide = 0.05
     if r < 0.15:
         c.transcend = True
     if r > 0.8:
